@@ -948,6 +948,7 @@ struct Rec {
     coq: Option<String>,
     show: Option<String>,
     orc: Option<String>,
+    shape: Option<String>,
     ks: (Vec<String>, String),
     nt: bool,
     imp: String,
@@ -970,6 +971,9 @@ impl Sink {
         }
         if let Some(q) = &r.orc {
             let _ = write!(s, ",\"orc\":\"{}\"", json_escape(q));
+        }
+        if let Some(q) = &r.shape {
+            let _ = write!(s, ",\"shape\":\"{}\"", json_escape(q));
         }
         let _ = write!(s, ",\"oracle\":\"na\"");
         if !r.msg.is_empty() {
@@ -1432,6 +1436,9 @@ fn c08_case(sink: &mut Sink, w: &World, q: &Query, kind: &str, extra_tags: &[Str
         if let (Some(p), Some(o)) = (&run.plan_coq, &run.obs_coq) {
             rec.coq = Some(format!("chk_run_k5 {} {} {} {mode} {}", opts_coq(w), run.st_coq, p, o));
             rec.show = Some(format!("show_run {} {} {}", opts_coq(w), run.st_coq, p));
+            if lang == Lang::Gql || lang == Lang::Cypher {
+                rec.shape = Some(format!("plan_shape_ok {} {} {}", lang.coq(), qc, p));
+            }
         }
         // an engine error on a query the front end accepted counts as a wrong answer; a query the
         // front end rejects (syntax outside what this language implements) is not judged
@@ -2135,6 +2142,22 @@ fn c10_zone(sink: &mut Sink, r: &mut Rng, ops: &[Op]) {
             }
         }
     }
+    // '<>' against a column whose comparable values all equal the literal (min = max = literal),
+    // next to strings, NULLs and missing values
+    let ne_case = !on_edge && r.chance(1, 4);
+    if ne_case {
+        for o in ops1.iter_mut() {
+            if let Op::Node(_, props) = o {
+                props.retain(|(k, _)| k != "x");
+                match r.below(8) {
+                    0..=3 => props.push(("x".into(), V::Int(3))),
+                    4 => props.push(("x".into(), V::Str("a".into()))),
+                    5 => props.push(("x".into(), V::Null)),
+                    _ => {}
+                }
+            }
+        }
+    }
     let w1 = World::build(true, &ops1);
     let mut q = gen_query(r, &w1);
     for h in q.hops.iter_mut() {
@@ -2161,12 +2184,21 @@ fn c10_zone(sink: &mut Sink, r: &mut Rng, ops: &[Op]) {
     let evars: Vec<String> = q.hops.iter().filter_map(|h| h.evar.clone()).collect();
     let nvars = q.vars_node();
     let var = if on_edge { r.pick(&evars).clone() } else { r.pick(&nvars).clone() };
-    let op = *r.pick(&[Cmp::Gt, Cmp::Ge, Cmp::Lt, Cmp::Le, Cmp::Eq, Cmp::Ne, Cmp::Ne]);
-    let leaf = if !on_edge && r.chance(1, 3) {
+    let mut op = *r.pick(&[Cmp::Gt, Cmp::Ge, Cmp::Lt, Cmp::Le, Cmp::Eq, Cmp::Ne, Cmp::Ne]);
+    let leaf = if on_edge && r.chance(6, 10) {
+        // aimed at the pruning decision: the node column lies entirely on the wrong side of the literal
+        let lit = if lowhigh { op = *r.pick(&[Cmp::Gt, Cmp::Ge]); r.range(4, 9) } else { op = *r.pick(&[Cmp::Lt, Cmp::Le]); r.range(8, 14) };
+        Ex::Cmp(op, Box::new(Ex::Prop(var, "w".into())), Box::new(Ex::Lit(V::Int(lit))))
+    } else if !on_edge && r.chance(1, 3) {
         // the heterogeneous column x (Int / Float / String values, often few of them)
         Ex::Cmp(op, Box::new(Ex::Prop(var, "x".into())), Box::new(Ex::Lit(gen_lit(r, "x"))))
     } else {
         Ex::Cmp(op, Box::new(Ex::Prop(var, "w".into())), Box::new(Ex::Lit(V::Int(r.range(0, 22)))))
+    };
+    let leaf = if ne_case {
+        Ex::Cmp(Cmp::Ne, Box::new(Ex::Prop(q.start.var.clone(), "x".into())), Box::new(Ex::Lit(V::Int(3))))
+    } else {
+        leaf
     };
     q.wher = Some(match r.below(4) {
         0 => Ex::And(Box::new(leaf), Box::new(gen_leaf(r, &nvars, &evars))),
